@@ -500,8 +500,32 @@ func replayObligation(P *Program, C *Contracts, o *Obligation, repo string) (map
 		return rep, false
 	}
 	if clause != nil {
+		// only the predicates the clause (transitively) uses
+		used := map[string]bool{}
+		var scan func(x *SExpr)
+		scan = func(x *SExpr) {
+			if x == nil {
+				return
+			}
+			if x.Kind == SCall && x.Args[0].Kind == SIdent {
+				if pd := C.Preds[fn.Pkg.Pkg.Path()+"."+x.Args[0].Name]; pd != nil && !used[pd.Name] {
+					used[pd.Name] = true
+					scan(pd.Body)
+				}
+			}
+			for _, a := range x.Args {
+				scan(a)
+			}
+		}
+		scan(clause.Expr)
+		for _, l := range fc.Lets {
+			scan(l.Expr)
+		}
 		for _, k := range preds {
 			pd := C.Preds[k]
+			if !used[pd.Name] {
+				continue
+			}
 			fmt.Fprintf(&body, "\tvar %s func(%s) bool\n\t%s = func(%s) bool { return %s }\n\t_ = %s\n", pd.Name, pd.ParamText, pd.Name, pd.ParamText, g.specGo(pd.Body, false, map[string]bool{}), pd.Name)
 		}
 		for _, l := range fc.Lets {
